@@ -155,6 +155,10 @@ struct Doc {
     /// the clone's NUL and space glyphs are redrawn as well (edited strips only: there are no invisible cells in them)
     #[serde(default)]
     edited_space: bool,
+    /// a SAUCE record attached to the document without resizing (Buffer::set_sauce(.., false), as the editor does when the user types a
+    /// title): (stated width, stated height, font name index, ice flag) - stale or contradicting values included
+    #[serde(default)]
+    sauce: Option<(u16, u16, u8, bool)>,
 }
 
 impl Doc {
@@ -262,6 +266,18 @@ fn build(d: &Doc) -> Built {
         // hide last: Layer::set_char ignores writes to hidden layers
         layer.properties.is_visible = lm.visible;
         buf.layers.push(layer);
+    }
+    if let Some((sw, sh, font, ice)) = d.sauce {
+        let mut rec = icy_engine::SauceData::default();
+        rec.buffer_size = icy_engine::Size::new(sw as i32, sh as i32);
+        rec.use_ice = ice;
+        rec.font_opt = match font % 4 {
+            0 => None,
+            1 => Some("IBM VGA".to_string()),
+            2 => Some("IBM VGA50".to_string()),
+            _ => Some("no such font".to_string()),
+        };
+        buf.set_sauce(Some(rec), false);
     }
     // the optimiser is judged against the document as it is stored: the perturbation happens before both renderings
     if d.shape != 0 && !buf.layers.is_empty() {
@@ -541,11 +557,12 @@ fn docs() -> BoxedStrategy<Doc> {
         layers,
         prop_oneof![3 => Just(0u8), 2 => 1u8..icyv::shape::CODES],
         prop_oneof![4 => Just(None), 1 => (1u8..=2).prop_map(Some)],
+        prop_oneof![3 => Just(None), 1 => (prop_oneof![Just(0u16), Just(80), 1u16..=14, Just(2000)], prop_oneof![Just(0u16), Just(25), 1u16..=8], any::<u8>(), any::<bool>()).prop_map(Some)],
     )
-        .prop_map(|(w, h, slot0_page, more, all_fonts, rgb, layers, shape, edited_clone)| {
+        .prop_map(|(w, h, slot0_page, more, all_fonts, rgb, layers, shape, edited_clone, sauce)| {
             let mut slots = vec![0u8];
             slots.extend(more);
-            Doc { w, h, slot0_page, slots, all_fonts, rgb, layers, shape, edited_clone, edited_space: false }
+            Doc { w, h, slot0_page, slots, all_fonts, rgb, layers, shape, edited_clone, edited_space: false, sauce }
         })
         .boxed()
 }
@@ -558,6 +575,9 @@ fn minimize(d: &Doc) -> Vec<Doc> {
     }
     if d.edited_clone.is_some() {
         out.push(Doc { edited_clone: None, ..d.clone() });
+    }
+    if d.sauce.is_some() {
+        out.push(Doc { sauce: None, ..d.clone() });
     }
     // fewer layers
     if d.layers.len() > 1 {
@@ -715,6 +735,7 @@ fn strip_doc(s: &Strip) -> Doc {
         shape: 0,
         edited_clone: None,
         edited_space: false,
+        sauce: None,
     }
 }
 
@@ -774,7 +795,7 @@ fn main() {
         "documents: 1..=12 x 1..=6 cells, 1..=4 Normal-mode layers (alpha channel, offset -3..8/-2..4, own size, hidden, default font page), cells = glyph (NUL/space/255/219, \
          every glyph the harness classifies all-clear or all-set in the cell's font, any of 0..=255) x fg/bg (16 palette colours, up to 4 RGB colours inserted into the palette) x bold x \
          font slot (up to 3 slots per document holding any of the 43 built-in pages, slot 0 may hold any page, so 8- and 16-row fonts mix) x visible/invisible cell x \
-         edited font clone (20%: one of the extra slots holds a clone of slot 0's font with ten glyphs redrawn in place and the cached checksum left stale) x \
+         attached SAUCE record with a stated size / font / ice flag that may contradict the document (25%, attached without resizing) x edited font clone (20%: one of the extra slots holds a clone of slot 0's font with ten glyphs redrawn in place and the cached checksum left stale) x \
          storage shape of layer 0 (40%: extra lines below, rows longer than the width, layer larger than the buffer, terminal size != buffer size, unallocated trailing cells). \
          strips (exhaustive): 43 pages x 256 glyphs x 8 neighbour attributes (other fg, other bg, bold) x {page in slot 0, page in its own slot}: a 5x2 document with the glyph under test \
          after a mixed glyph, after itself, at the line end and at the line start. edited_strips (exhaustive): 43 pages x the 10 redrawn glyphs x 8 neighbour attributes, the page in slot 0 and \
